@@ -13,6 +13,8 @@ from geneticengine.grammar.grammar import extract_grammar
 from geneticengine.random.sources import NativeRandomSource
 from geneticengine.representations.tree.initializations import MaxDepthDecider
 from geneticengine.representations.grammatical_evolution.ge import GrammaticalEvolutionRepresentation, Genotype
+from geneticengine.representations.grammatical_evolution.structured_ge import (StructuredGrammaticalEvolutionRepresentation,
+                                                                                INFRASTRUCTURE_KEY)
 
 FEATS = [
     {"intrange", "nested_abstract", "concrete_ref"},
@@ -51,9 +53,19 @@ def main():
                     try:
                         with time_limit(10):
                             prog = rep.genotype_to_phenotype(Genotype(list(genes)))
-                        evs.append({"e": "gemap", "genes": genes, "d": d, "prog": term_of(prog), "exc": ""})
+                        evs.append({"e": "gemap", "rep": "ge", "genes": genes, "d": d, "prog": term_of(prog), "exc": ""})
                     except Exception as e:
-                        evs.append({"e": "gemap", "genes": genes, "d": d, "prog": term_of(0), "exc": exc_name(e)})
+                        evs.append({"e": "gemap", "rep": "ge", "genes": genes, "d": d, "prog": term_of(0), "exc": exc_name(e)})
+                    # structured GE reads every decision from its "$infrastructure" list with the same index rule
+                    srep = StructuredGrammaticalEvolutionRepresentation(g, MaxDepthDecider(rs, g, d), gene_length=8)
+                    sg = srep.create_genotype(rs)
+                    sg.dna[INFRASTRUCTURE_KEY] = list(genes)
+                    try:
+                        with time_limit(10):
+                            prog = srep.genotype_to_phenotype(sg)
+                        evs.append({"e": "gemap", "rep": "sge", "genes": genes, "d": d, "prog": term_of(prog), "exc": ""})
+                    except Exception as e:
+                        evs.append({"e": "gemap", "rep": "sge", "genes": genes, "d": d, "prog": term_of(0), "exc": exc_name(e)})
             batch.trace(spec["id"], evs, {"k": "gemap", "g": decl, "impl0": impl_grammar(g)})
             nev += len(evs)
         finally:
